@@ -8,6 +8,7 @@ import (
 	"fmt"
 	"io"
 	"log"
+	"math"
 	"math/big"
 	"math/bits"
 	"sort"
@@ -1269,14 +1270,13 @@ func slice(x, lo, hi, step_ Value) (Value, error) {
 		if !ok {
 			return nil, fmt.Errorf("invalid slice step: got %s, want int", step_.Type())
 		}
-		if iSmall, iBig := i.get(); iBig == nil {
-			step = int(iSmall)
+		if x, ok := i.Int64(); ok && (math.MinInt32 <= x && x <= math.MaxInt32 || -int64(n) < x && x < int64(n)) {
+			step = int(x)
 		} else {
-			// A stride too large for the small representation
-			// selects at most the first element, like any stride
-			// of at least n.
+			// A larger stride selects at most the first element,
+			// like any stride of at least n.
 			step = max(n, 1)
-			if iBig.Sign() < 0 {
+			if i.Sign() < 0 {
 				step = -step
 			}
 		}
@@ -1367,8 +1367,8 @@ func indices(start_, end_ Value, len int) (start, end int, err error) {
 
 // asIndex sets *result to the integer value of v, adding len to it
 // if it is negative.  If v is nil or None, *result is unchanged.
-// An integer too large for the small representation lies far outside
-// the sequence: it yields len if positive and -1 if negative, which
+// An integer that does not fit in an int lies far outside the
+// sequence: it yields len if positive and -1 if negative, which
 // every caller then truncates like any other out-of-range index.
 func asIndex(v Value, len int, result *int) error {
 	if v != nil && v != None {
@@ -1376,12 +1376,12 @@ func asIndex(v Value, len int, result *int) error {
 		if !ok {
 			return fmt.Errorf("got %s, want int", v.Type())
 		}
-		if iSmall, iBig := i.get(); iBig == nil {
-			*result = int(iSmall)
+		if x, ok := i.Int64(); ok && int64(int(x)) == x {
+			*result = int(x)
 			if *result < 0 {
 				*result += len
 			}
-		} else if iBig.Sign() < 0 {
+		} else if i.Sign() < 0 {
 			*result = -1
 		} else {
 			*result = len
